@@ -33,7 +33,10 @@ struct Shared {
     events: Mutex<Vec<String>>,
     msgs: AtomicUsize,
     controlled: bool,
+    held: Mutex<std::collections::VecDeque<(usize, MpcMsg, oneshot::Sender<Result<(), E>>)>>,   // MPC messages of the slow link, in sending order
 }
+/// (from, to): MPC messages on this link are handed over only when the rest of the system has stopped moving (C12, server level)
+static SLOW: Mutex<Option<(usize, usize)>> = Mutex::new(None);
 #[derive(Clone)]
 struct Cl { sh: Arc<Shared>, me: usize }
 impl PolicyClientBuilder for Cl { type Client = Cl; fn new_client(&self, _p: &Policy) -> Cl { self.clone() } }
@@ -52,7 +55,9 @@ impl PolicyClient for Cl {
     async fn validate(&self, to: usize, req: ValidateRequest) -> Result<(), E> { self.gate(to, "validate").await?; m(self.sh.handles.get().unwrap()[to].validate(req).await) }
     async fn run(&self, to: usize, req: RunRequest) -> Result<(), E> { self.gate(to, "run").await?; m(self.sh.handles.get().unwrap()[to].run(req).await) }
     async fn consts(&self, to: usize, req: ConstsRequest) -> Result<(), E> { self.gate(to, "consts").await?; m(self.sh.handles.get().unwrap()[to].consts(req).await) }
-    async fn msg(&self, to: usize, msg: MpcMsg) -> Result<(), E> { self.sh.msgs.fetch_add(1, Ordering::SeqCst); m(self.sh.handles.get().unwrap()[to].mpc_msg(msg).await) }
+    async fn msg(&self, to: usize, msg: MpcMsg) -> Result<(), E> {
+        if *SLOW.lock().unwrap() == Some((self.me, to)) { let (tx, rx) = oneshot::channel(); self.sh.held.lock().unwrap().push_back((to, msg, tx)); return rx.await.unwrap_or_else(|_| Err(E("slow link dropped".into()))); }
+        self.sh.msgs.fetch_add(1, Ordering::SeqCst); m(self.sh.handles.get().unwrap()[to].mpc_msg(msg).await) }
     async fn output(&self, _to: Url, result: Result<Literal, OutputError>) -> Result<(), E> {
         let s = match result { Ok(l) => format!("Ok({l})"), Err(OutputError::Cancelled) => "Cancelled".to_string(), Err(e) => format!("Err({})", e.to_string().chars().take(60).collect::<String>()) };
         // a real destination is a network call: the notification has been delivered only when this future completes
@@ -134,6 +139,31 @@ async fn do_inject(s: &Sys, inj: Inject, log: &mut Vec<String>) {
         Inject::StrayValidate(p) => format!("{:?}", tokio::time::timeout(t, s.handles[p].validate(ValidateRequest { computation_id: id, program_hash: "x".into(), leader: 0 })).await.map(|r| r.map_err(|e| format!("{e:?}").chars().take(60).collect::<String>()))),
     };
     log.push(format!("  -> {res}"));
+}
+
+/// C12 at the server level: n real actors, coordination undisturbed, one directed link whose MPC messages are delivered (in order, none lost)
+/// only when no other message has moved for a while. Every such schedule must end with the result at every destination.
+const PBIG: &str = "pub fn main(a: u32, b: u32, c: u32) -> u32 { a * b * c }";
+/// more than 8000 AND gates: every contributor streams the maximal number of garbled-gate chunks (9) to the evaluator
+const PBIG64: &str = "pub fn main(a: u64, b: u64, c: u64) -> u64 { a * b * c }";
+async fn slow_link_run(n: usize, leader: usize, slow: (usize, usize), prog: &str, deadline_s: u64) -> (Vec<(usize, String)>, usize, usize, bool) {
+    polytune_server_core::verif::set_observer(None); *SLOW.lock().unwrap() = Some(slow);
+    let s = sys(n, 1, false); let id = Uuid::from_u128(12);
+    for p in 0..n { let h = s.handles[p].clone(); let mut pol = policy(n, p, leader, true, id, prog, false); pol.input = if prog == PBIG64 { Literal::from(p as u64 + 3) } else { Literal::from(p as u32 + 3) };
+        tokio::spawn(async move { let _ = tokio::time::timeout(Duration::from_secs(30), h.schedule(pol)).await; }); }
+    let t0 = std::time::Instant::now(); let (mut last, mut still, mut released) = (0usize, 0u32, 0usize); let mut stuck = false;
+    let mut progress = std::time::Instant::now();   // nothing at all has moved for 40 s: the parties are deadlocked, no need to wait for the deadline
+    while s.sh.outputs.lock().unwrap().len() < n && t0.elapsed().as_secs() < deadline_s && progress.elapsed().as_secs() < 40 {
+        tokio::time::sleep(Duration::from_millis(5)).await;
+        let now = s.sh.msgs.load(Ordering::SeqCst) + s.sh.outputs.lock().unwrap().len(); if now != last { last = now; still = 0; progress = std::time::Instant::now(); continue; } still += 1;
+        if still >= 4 { let next = s.sh.held.lock().unwrap().pop_front();
+            if let Some((to, msg, done)) = next { released += 1; still = 0;
+                progress = std::time::Instant::now(); let left = Duration::from_secs(40);
+                match tokio::time::timeout(left, s.handles[to].mpc_msg(msg)).await { Ok(res) => { let _ = done.send(m(res)); } Err(_) => { stuck = true; break; } } } }
+    }
+    *SLOW.lock().unwrap() = None; let outs = s.sh.outputs.lock().unwrap().clone(); let total = s.sh.msgs.load(Ordering::SeqCst);
+    for j in s.joins { j.abort(); }
+    (outs, total, released, stuck)
 }
 
 static OBS: Mutex<Vec<(usize, String, String, String)>> = Mutex::new(Vec::new());
@@ -400,6 +430,20 @@ async fn main() {
                     if !bad.is_empty() { failures.push(json!({"witness": "C17:batch", "failure": bad.iter().take(4).collect::<Vec<_>>(), "case": json!({"policies": k, "concurrency": conc, "leaders": leaders_b, "outputs": outs_b})})); }
                     if samples.len() < 3 { samples.push(json!({"batch": {"policies": k, "concurrency": conc, "leaders": leaders_b, "max_certain_holders_per_host": max_certain, "permits_after": b.permits, "observed_steps": b.obs.len()}})); }
                 }
+            }
+            "C12" => {
+                // corpus first: the links into the leader (= evaluator) from each contributor; then all directed links and leaders in turn
+                let all: Vec<(usize, (usize, usize))> = (0..3).flat_map(|l| (0..3).flat_map(move |f| (0..3).filter(move |t| *t != f).map(move |t| (l, (f, t))))).collect();
+                let (leader, slow) = match case { 0 => (0, (2, 0)), 1 => (0, (1, 0)), 2 => (1, (0, 1)), 3 => (0, (2, 0)), _ => all[(case - 4) % all.len()] };
+                // every fourth case (and the last corpus entry): the circuit with the maximal number of one-way chunks
+                let prog = if case == 3 || case % 4 == 3 { PBIG64 } else { PBIG };
+                let (outs, total, released, stuck) = slow_link_run(3, leader, slow, prog, 300).await; execs += 1;
+                *dist.entry(format!("ands:{}", if prog == PBIG64 { ">8000 (9 chunks)" } else { "2001..8000" })).or_default() += 1; *dist.entry(format!("slow-link:{}->{}{}", slow.0, slow.1, if slow.1 == leader { " (into evaluator)" } else if slow.0 == leader { " (from evaluator)" } else { "" })).or_default() += 1; distinct.insert(format!("{leader} {slow:?}"));
+                let want = "Ok(60)".to_string(); let mut bad = vec![];
+                for p in 0..3 { let got: Vec<&String> = outs.iter().filter(|(q, _)| *q == p).map(|(_, s)| s).collect(); if got != vec![&want] { bad.push(format!("party {p}: destination got {got:?}, want one {want}")); } }
+                if stuck { bad.push("a message of the slow link could not be handed to the receiving actor: its command loop is blocked".into()); }
+                if !bad.is_empty() { failures.push(json!({"witness": "C12:server-slow-link", "failure": bad, "case": json!({"n": 3, "leader": leader, "slow_link": [slow.0, slow.1], "program": prog, "mpc_messages": total, "released_one_by_one": released})})); }
+                if samples.len() < 3 { samples.push(json!({"leader": leader, "slow_link": [slow.0, slow.1], "mpc_messages": total, "released_one_by_one": released, "outputs": outs})); }
             }
             _ => { eprintln!("unknown property"); std::process::exit(2); }
         }
